@@ -97,6 +97,19 @@ def node_kinds(tree, c):
                 node_kinds(x, c)
 
 
+def input_disputed(acc, text, out):
+    """The printers are judged on trees the parser built *correctly*:
+    whether the tree of the ORIGINAL text is the right one is C03's question,
+    and a defect there is not reported a second time under C01/C02."""
+    ref0 = R2.parse(text)
+    if ref0.verdict == 'reject' or (ref0.verdict == 'accept' and
+                                    ref0.neutral != out.tree):
+        acc.out['skipped: tree of the input disputed by the reference '
+                '(C03)'] += 1
+        return True
+    return False
+
+
 # ------------------------------------------------------------------ C01
 def case_c01(acc, text, indents, tag=''):
     from calmjs.parse.unparsers.es5 import pretty_print
@@ -104,6 +117,8 @@ def case_c01(acc, text, indents, tag=''):
     acc.cases += 1
     if out.kind != 'accept':
         acc.out['input-not-accepted'] += 1
+        return
+    if input_disputed(acc, text, out):
         return
     acc.nontrivial += 1
     node_kinds(out.tree, acc.kinds)
@@ -188,6 +203,8 @@ def case_c02(acc, text, tag=''):
     acc.cases += 1
     if out.kind != 'accept':
         acc.out['input-not-accepted'] += 1
+        return
+    if input_disputed(acc, text, out):
         return
     acc.nontrivial += 1
     node_kinds(out.tree, acc.kinds)
